@@ -718,22 +718,21 @@ fn rollback_list(level: usize) -> Vec<(usize, usize, usize, bool)> {
 /// The deterministic block of declaration programs (gen_st::decl_program): one declaration of one type
 /// in one place.  level 1 (quick): every type as `global` with and without initial value, and every
 /// type x every other place with initial value where there is one; level 2: everything.
-/// Combinations of the known finding C11-string-default-param are left out.
+/// String-typed input defaults (finding C11-string-default-param, fixed in c48da62) are part of it.
 fn decl_list(level: usize) -> Vec<(usize, usize, bool)> {
     let mut v = Vec::new();
     for ty in 0..gen_st::DECL_TYPES.len() {
         for place in 0..gen_st::DECL_PLACES.len() {
             for init in [true, false] {
-                if gen_st::decl_hits_string_default(ty, place, init) {
-                    continue;
-                }
                 let has_init = !gen_st::DECL_TYPES[ty].1.is_empty();
                 if init && !has_init {
                     continue; // identical to the program without initial value
                 }
                 let global = gen_st::DECL_PLACES[place] == "global";
                 // quick: globals both ways; other places alternate by parity so that every (type, place) pair occurs
-                if level >= 2 || global || init == ((ty + place) % 2 == 0) || !has_init {
+                if level >= 2 || global || init == ((ty + place) % 2 == 0) || !has_init
+                    || gen_st::decl_hits_string_default(ty, place, init)
+                {
                     v.push((ty, place, init));
                 }
             }
